@@ -549,9 +549,17 @@ def _r112_offsets(ctx, R, lt) -> None:
                 f'by {txt(adv[0])}')
     # callers drop empty parts and fold case for INBOX only
     lm = lt.own_method('list_matching')
-    uses = [c for c in calls_in(lm.node, '_matches')]
-    R.check(len(uses) >= 2, lm, lm.node, 'list_matching uses _matches for '
-            'INBOX and for other names', 'call sites not found')
+    lcfg = cfg_of(lm)
+    ys = lcfg.find(lambda n: n.kind == 'stmt' and any(
+        isinstance(x, (ast.Yield, ast.YieldFrom)) for x in ast.walk(n.stmt)))
+    mtests = [t for t in lcfg.nodes if t.kind == 'test' and any(
+        call_name(c) == '_matches' for c in t.calls())
+        and not isinstance(t.stmt.test, ast.UnaryOp)]
+    R.check(bool(ys) and bool(mtests) and all(
+        any(lcfg.controlled_by(y, t, 't') for t in mtests) for y in ys),
+        lm, lm.node, 'list_matching yields an entry only if _matches() '
+        'accepted it', 'an entry is yielded without (or against) the '
+        'verdict of _matches()')
 
 
 # ----------------------------------------------------------------------
